@@ -4,7 +4,7 @@ import MindsVerif.Gen.Schema
 /-! Line protocol driver for the walker model instantiated with the probed schema.
 input : `log | <tree>`            logging callback (never replaces)
         `rep <tag> | <tree>`      the callback returns a fresh leaf (class `Constant`, tag 999999) for the node `tag`
-        `find | <tree>`           get_query_params: visits + number of parameters
+        `find | <tree>`           get_query_params: visits of the walk + number and textual order of the parameters
         `fill <n> | <tree>`       fill_query_params with the values 1000000 … 1000000+n-1
         `seq <op,op,…> | <tree>`  prepared-statement calls on a fresh planner: `p` prepare (a fresh copy of the tree),
                                   `e<k>` execute with k values, `en` execute without values, `i` get_statement_info
@@ -81,12 +81,13 @@ def handle (line : String) : String :=
         | none => "error: bad tag"
       | ["find"] =>
         let o := walk σ (cbFind paramC) t []
-        showOut o s!"n={o.st.length}"
+        let found := getParams σ paramC t
+        showOut o s!"n={found.length} order={",".intercalate (found.map (fun m => toString m.tag))}"
       | ["fill", n] =>
         match n.toNat? with
         | some n =>
-          let o := walk σ (cbFill paramC constC) t ⟨(List.range n).map (· + 1000000), false⟩
-          showOut o s!"left={o.st.vals.length} indexError={b01 o.st.failed}"
+          let r := fillParams σ paramC constC t ((List.range n).map (· + 1000000))
+          showOut r.out s!"left={r.left} indexError={b01 r.failed}"
         | none => "error: bad n"
       | ["seq", ops] => " ".intercalate (runSeq σ paramC constC t (ops.splitOn ",") .init) ++ " ; - ; r=-"
       | _ => "error: bad command"
